@@ -38,7 +38,8 @@ theorem ring_full (head tail : BitVec 64) (h : head.toNat ≤ tail.toNat) :
 theorem ring_slots (head tail : BitVec 64) :
     (ring_add_x1 tail).toNat = tail.toNat % 16 ∧ (ring_drainTo_a4 head).toNat = head.toNat % 16 ∧
     ring_add_x0 tail = tail + 1#64 ∧ ring_drainTo_u0 head = head + 1#64 :=
-  ⟨and_mask64 tail 4 15#64 (by decide), and_mask64 head 4 15#64 (by decide), rfl, rfl⟩
+  ⟨and_mask64 tail 4 15#64 (by decide), and_mask64 head 4 15#64 (by decide),
+   by first | rfl | simp [ring_add_x0, BitVec.add_comm], by first | rfl | simp [ring_drainTo_u0, BitVec.add_comm]⟩
 
 /-- the consumer returns at once on an empty ring and stops when it reaches the tail it loaded -/
 theorem ring_drain_guards (head tail : BitVec 64) :
@@ -117,6 +118,7 @@ theorem walk_all_stripes (len j : BitVec 64) (hl : len.toNat < 2 ^ 62) (hj : j.t
     congr 1
     apply propext
     constructor <;> intro h <;> omega
-  exact ⟨rfl, hslt, rfl, rfl, hslt, rfl⟩
+  exact ⟨rfl, hslt, by first | rfl | simp [Striped_expandOrRetry_u1, BitVec.add_comm], rfl, hslt,
+    by first | rfl | simp [Striped_DrainTo_u0, BitVec.add_comm]⟩
 
 end OtterVerif.Proofs.LossyGen
